@@ -59,6 +59,9 @@ SHAPES09 = [
     ('dnp-221-over-operator', [221004, 201130, 12001, 201000, 12004, 12001]),
     ('dnp-221-over-delayed', [221004, 101000, 31001, 12001, 12004, 10004, 1001]),
     ('zero-count', [101000, 31001, 12001, 1001]),
+    # subsets that hold no value at all
+    ('empty-template', []),
+    ('operators-only', [201130, 201000, 202129, 202000]),
     ('strings', [1015, 1001, 1015, 205008, 208003, 1015, 208000]),
     ('flags', [2002, 2003, 20003, 2001, 8042]),
     ('assoc-chain', [204003, 31021, 12001, 1015, 204000, 12001, 224000, 101000, 31001, 31031, 8023,
